@@ -75,17 +75,14 @@ namespace
             // Keys are captured by value: later changes to an array used as key must not reach the map
             if (key.is<t_array>()) { key = sqf::runtime::value(key.data<d_array>()->copy_deep()); }
             // ToDo: Check key-type matches
-            auto existing = data->map().find(key);
-            std::optional<sqf::runtime::value> previous;
-            if (existing != data->map().end()) { previous = existing->second; }
-            data->map()[key] = value;
-            if (data->contains_itself())
-            { // the value (transitively) contains this hashmap: refuse, like arrays do
-                if (previous.has_value()) { data->map()[key] = *previous; }
-                else { data->map().erase(key); }
+            // a key or value that (transitively) contains this hashmap would make it contain itself: refuse, like arrays do
+            // (tested before anything is stored: hashing a cyclic key would never end)
+            if ((!key.empty() && key.data()->reaches(data.get())) || (!value.empty() && value.data()->reaches(data.get())))
+            {
                 runtime.__logmsg(err::ArrayRecursion(runtime.context_active().current_frame().diag_info_from_position()));
                 return {};
             }
+            data->map()[key] = value;
         }
         else
         {
